@@ -295,3 +295,80 @@ def bounded_uids(label, backend='dict'):
                     res.samples.append(dict(program=repr(args[0]), result='agrees'))
         return res
     return fn
+
+
+# ---- UIDVALIDITY of a name that is created again
+async def regenerate(backend, how, n):
+    """the same name is made anew n times (RENAME INBOX away / DELETE + CREATE); every generation starts its UIDs afresh,
+    so it must get a UIDVALIDITY that no earlier generation of that name had"""
+    errors = []
+    if backend == 'dict':
+        w = await World().start()
+        cred = {}
+    else:
+        from .imapdrv import MaildirWorld
+        w = await MaildirWorld(layout='++' if backend == 'maildir++' else 'fs').start(users=(('alice', 'apass'),))
+        cred = dict(user=b'alice', pw=b'apass')
+    c = await w.client('c', **cred)
+    name = b'INBOX' if how == 'rename-inbox' else b'Again'
+    if how != 'rename-inbox':
+        await c.cmd(b'CREATE ' + name)
+    seen = {}
+    for i in range(n):
+        body = b'X-Token: gen%dx\n\nbody\n' % i
+        r = await c.cmd(b'APPEND ' + name + b' {%d}' % len(body), [body + b'\r\n'])
+        m = re.search(rb'\[APPENDUID (\d+) (\d+)\]', r['tagged'] or b'')
+        if not m:
+            errors.append(('uidvalidity_never_repeats_for_a_name', f'generation {i}: APPEND answered {r["tagged"]!r}'))
+            break
+        key = (int(m.group(1)), int(m.group(2)))
+        if key in seen:
+            errors.append(('uidvalidity_never_repeats_for_a_name',
+                           f'{name.decode()} made anew by {how}: generation {i} answers [APPENDUID {key[0]} {key[1]}] for its first '
+                           f'message, exactly what generation {seen[key]} answered for a different message'))
+            break
+        seen[key] = i
+        if how == 'rename-inbox':
+            r = await c.cmd(b'RENAME INBOX Old%d' % i)
+        else:
+            await c.cmd(b'DELETE ' + name)
+            r = await c.cmd(b'CREATE ' + name)
+        if b' OK' not in (r['tagged'] or b''):
+            if backend != 'dict' and how == 'rename-inbox':
+                break       # known finding of C11: maildir cannot rename INBOX
+            errors.append(('uidvalidity_never_repeats_for_a_name', f'generation {i}: {r["tagged"]!r}'))
+            break
+    await w.close()
+    if hasattr(w, 'cleanup'):
+        w.cleanup()
+    return errors, (backend, how, len(seen))
+
+
+def _regen_worker(args):
+    try:
+        return args, *run(regenerate(*args))
+    except Exception as exc:    # noqa
+        import traceback
+        return args, [('harness', f'harness exception {exc!r} {traceback.format_exc()[-600:]}')], ()
+
+
+def bounded_uidvalidity(label):
+    from pyvc.prop import BoundedResult
+
+    def fn(tier, seed):
+        res = BoundedResult()
+        res.exhaustive = False
+        big = 3000 if tier == 'quick' else 20000
+        items = [('dict', 'rename-inbox', big), ('dict', 'delete-create', big),
+                 ('maildir++', 'delete-create', 250 if tier == 'quick' else 2500),
+                 ('maildirfs', 'delete-create', 250 if tier == 'quick' else 2500)]
+        with mp.get_context('fork').Pool(4) as pool:
+            for args, errs, sig in pool.imap_unordered(_regen_worker, items):
+                res.evaluations += sig[2] if sig else 1
+                res.distinct.add(sig)
+                for lab, text in errs[:1]:
+                    res.fail(f'{label}/{lab}', dict(backend=args[0], how=args[1], generations=args[2]), [text])
+                if not errs:
+                    res.samples.append(dict(backend=args[0], how=args[1], generations=sig[2], result='all distinct'))
+        return res
+    return fn
